@@ -5,6 +5,7 @@ package main
 import (
 	"bufio"
 	"bytes"
+	"encoding/xml"
 	"fmt"
 	"net"
 	"net/http"
@@ -13,6 +14,7 @@ import (
 	"sync"
 
 	"github.com/irai/packet"
+	"github.com/irai/packet/handlers/dns_naming"
 	"pvharness/lib"
 )
 
@@ -317,41 +319,64 @@ func addProc(cl *caseList, kind, class string, f []byte, want packet.PayloadID, 
 
 func genARP(cl *caseList, rng *lib.Rand, scale int) {
 	ip := func() netip.Addr {
-		return netip.AddrFrom4([4]byte{192, 168, 0, byte(rng.Pick(0, 1, 11, 50, 51, 129, 255))})
+		return netip.AddrFrom4([4]byte{192, 168, 0, byte(rng.Pick(0, 1, 11, 50, 51, 129, 200, 255))})
 	}
-	add := func(class string, arp []byte) {
-		addProc(cl, "arp", class, lib.MkEther(bcast, peerMAC, 0x0806, arp), packet.PayloadARP, nil)
+	// state the processor branches on: handler closed, sender hunted, DHCP offer pending, log level
+	envTok := func() []string {
+		return []string{tf(rng.Chance(10)), tf(rng.Bool()), tf(rng.Bool()), tf(rng.Chance(30))}
 	}
+	add := func(class string, arp []byte, e []string) {
+		addProc(cl, "arp", class, lib.MkEther(bcast, peerMAC, 0x0806, arp), packet.PayloadARP,
+			func([]byte, bool) []string { return e })
+	}
+	zero := netip.AddrFrom4([4]byte{})
+	router := netip.MustParseAddr("192.168.0.11")
 	for k := 0; k < 80*scale; k++ {
 		sip := ip()
-		if rng.Chance(20) {
-			sip = netip.AddrFrom4([4]byte{})
+		if rng.Chance(25) {
+			sip = zero // ACD probe
 		}
 		if rng.Chance(10) {
 			sip = netip.AddrFrom4([4]byte{169, 254, 1, 2})
 		}
 		tip := ip()
 		if rng.Chance(20) {
-			tip = sip
+			tip = sip // announcement
 		}
-		a := lib.MkARP(uint16(rng.Pick(1, 2, 3, 0)), peerMAC, sip, net.HardwareAddr{0, 0, 0, 0, 0, 0}, tip)
-		add("valid", append(a, make([]byte, rng.Pick(0, 18))...))
+		if rng.Chance(25) {
+			tip = router // request for the router: answered when the sender is hunted
+		}
+		if rng.Chance(5) {
+			tip = netip.AddrFrom4([4]byte{8, 8, 8, 8})
+		}
+		a := lib.MkARP(uint16(rng.Pick(1, 1, 2, 3, 0)), peerMAC, sip, net.HardwareAddr{0, 0, 0, 0, 0, 0}, tip)
+		add("valid", append(a, make([]byte, rng.Pick(0, 18))...), envTok())
 	}
-	a := lib.MkARP(1, peerMAC, peerIP4, net.HardwareAddr{0, 0, 0, 0, 0, 0}, netip.MustParseAddr("192.168.0.11"))
+	// every combination of the state flags on the three request shapes
+	for _, tgt := range []netip.Addr{router, netip.MustParseAddr("192.168.0.77")} {
+		for _, src := range []netip.Addr{peerIP4, zero} {
+			a := lib.MkARP(1, peerMAC, src, net.HardwareAddr{0, 0, 0, 0, 0, 0}, tgt)
+			for m := 0; m < 16; m++ {
+				add("state", a, []string{tf(m&1 != 0), tf(m&2 != 0), tf(m&4 != 0), tf(m&8 != 0)})
+			}
+		}
+	}
+	a := lib.MkARP(1, peerMAC, peerIP4, net.HardwareAddr{0, 0, 0, 0, 0, 0}, router)
 	for _, t := range truncations(a, 0) {
-		add("trunc", t)
+		add("trunc", t, envTok())
 	}
 	for k := 0; k < 80*scale; k++ {
 		c := append([]byte{}, a...)
 		c[rng.Intn(8)] = byte(rng.Pick(0, 1, 4, 6, 8, 255))
-		add("hdrcorrupt", c)
+		add("hdrcorrupt", c, envTok())
 	}
 }
 
 func genICMP4(cl *caseList, rng *lib.Rand, scale int) {
 	add := func(class string, msg []byte) {
 		f := lib.MkEther(hostMAC, peerMAC, 0x0800, lib.MkIP4(peerIP4, netip.MustParseAddr("192.168.0.129"), 1, 64, msg))
-		addProc(cl, "icmp4", class, f, packet.PayloadICMP4, nil)
+		info := tf(rng.Bool())
+		addProc(cl, "icmp4", class, f, packet.PayloadICMP4, func([]byte, bool) []string { return []string{info} })
 	}
 	inner := func(proto byte, ihl, totalLen int, payload []byte) []byte {
 		ip := lib.MkIP4(netip.MustParseAddr("192.168.0.129"), netip.MustParseAddr("8.8.8.8"), proto, 64, payload)
@@ -399,8 +424,10 @@ func genICMP4(cl *caseList, rng *lib.Rand, scale int) {
 }
 
 func genICMP6(cl *caseList, rng *lib.Rand, scale int) {
-	flag := func(_ []byte, hostNil bool) []string { return []string{tf(!hostNil)} }
 	add := func(class string, src, dst netip.Addr, typ byte, body []byte) {
+		dbg, hunt := tf(rng.Chance(40)), tf(rng.Chance(30))
+		unspecTok := tf(src == netip.IPv6Unspecified())
+		flag := func(_ []byte, hostNil bool) []string { return []string{dbg, unspecTok, tf(!hostNil), hunt} }
 		f := lib.MkEther(net.HardwareAddr{0x33, 0x33, 0, 0, 0, 1}, peerMAC, 0x86dd, lib.MkIP6(src, dst, 58, 255, lib.MkICMP6(src, dst, typ, 0, body)))
 		addProc(cl, "icmp6", class, f, packet.PayloadICMP6, flag)
 	}
@@ -475,10 +502,64 @@ func genICMP6(cl *caseList, rng *lib.Rand, scale int) {
 	}
 }
 
+// dhcpReplyOf runs the frame through a fresh session + handler in THIS process, on a copy with
+// a large capacity (EncodeDHCP4 writes its reply into the request buffer up to its capacity),
+// and reports what the lease table decided: "none", "nak", or the number of option bytes of
+// the OFFER/ACK.  The model takes this decision as a parameter.
+func dhcpReplyOf(f []byte, captured bool) (tok string) {
+	tok = "none"
+	defer func() { recover() }()
+	s, conn := lib.NewSession()
+	if captured {
+		s.Capture(peerMAC)
+	}
+	h := dhcpHandler(s)
+	buf := make([]byte, 4096)
+	frame, err := s.Parse(buf[:copy(buf, f)])
+	if err != nil || frame.PayloadID != packet.PayloadDHCP4 {
+		return
+	}
+	h.ProcessPacket(frame)
+	for _, out := range conn.Take() {
+		if len(out) < 14+20+8+241 || out[12] != 8 || out[13] != 0 || out[23] != 17 {
+			continue
+		}
+		udp := out[34:]
+		if int(udp[0])<<8|int(udp[1]) != 67 { // replies of the server only (attack / decline frames come from port 68)
+			continue
+		}
+		d := udp[8:]
+		pos, nak := 0, false
+		for o := d[240:]; len(o) >= 1 && o[0] != 255; {
+			if o[0] == 0 {
+				o, pos = o[1:], pos+1
+				continue
+			}
+			if len(o) < 2 || len(o) < 2+int(o[1]) {
+				break
+			}
+			if o[0] == 53 && o[1] == 1 && o[2] == 6 {
+				nak = true
+			}
+			pos += 2 + int(o[1])
+			o = o[2+int(o[1]):]
+		}
+		if nak {
+			return "nak"
+		}
+		return fmt.Sprint(pos)
+	}
+	return
+}
+
 func genDHCP4(cl *caseList, rng *lib.Rand, scale int) {
 	add := func(class string, sp, dp uint16, src netip.Addr, msg []byte) {
 		f := lib.MkEther(bcast, peerMAC, 0x0800, lib.MkIP4(src, netip.MustParseAddr("255.255.255.255"), 17, 64, lib.MkUDP(sp, dp, msg)))
-		addProc(cl, "dhcp4", class, f, packet.PayloadDHCP4, nil)
+		captured := rng.Chance(30)
+		info := tf(rng.Bool())
+		addProc(cl, "dhcp4", class, f, packet.PayloadDHCP4, func([]byte, bool) []string {
+			return []string{tf(dp == 68), dhcpReplyOf(f, captured), info, tf(captured)}
+		})
 	}
 	zero := netip.AddrFrom4([4]byte{})
 	opts := func(mt byte) []byte {
@@ -498,12 +579,18 @@ func genDHCP4(cl *caseList, rng *lib.Rand, scale int) {
 		if rng.Bool() {
 			o = append(o, 55, 4, 1, 3, 6, 15)
 		}
-		return append(o, 255)
+		if rng.Chance(70) {
+			o = append(o, 255)
+		}
+		if rng.Chance(50) { // BOOTP padding to 300 bytes and beyond
+			o = append(o, make([]byte, rng.Pick(20, 60, 61, 80))...)
+		}
+		return o
 	}
 	for k := 0; k < 40*scale; k++ {
-		mt := byte(rng.Pick(1, 3, 4, 7, 8, 2, 5, 6, 0, 9))
+		mt := byte(rng.Pick(1, 1, 3, 3, 4, 7, 8, 2, 5, 6, 0, 9))
 		add("server", 68, 67, zero, dhcpMsg(rng, 1, opts(mt)))
-		add("client", 67, 68, netip.MustParseAddr("192.168.0.11"), dhcpMsg(rng, 2, opts(byte(rng.Pick(2, 5, 6)))))
+		add("client", 67, 68, netip.MustParseAddr("192.168.0.11"), dhcpMsg(rng, 2, opts(byte(rng.Pick(2, 2, 5, 6)))))
 	}
 	for k := 0; k < 60*scale; k++ { // option value lengths the handlers convert: 0, 1, 3, 5, 16
 		o := []byte{53, 1, byte(rng.Pick(1, 3, 4, 7))}
@@ -517,7 +604,22 @@ func genDHCP4(cl *caseList, rng *lib.Rand, scale int) {
 			o[1] = byte(rng.Pick(0, 2))
 			o = append(o[:2], append(rng.Bytes(int(o[1])), o[3:]...)...)
 		}
-		add("optlen", 68, 67, zero, dhcpMsg(rng, 1, append(o, 255)))
+		if rng.Bool() {
+			o = append(o, 255)
+		}
+		add("optlen", 68, 67, zero, dhcpMsg(rng, 1, o))
+	}
+	// long client identifiers: the NAK carries the identifier back and is encoded INTO the
+	// request buffer (EncodeDHCP4(p, ...)): identifier length x trailing bytes around the fit
+	for _, l := range []int{40, 47, 48, 49, 50, 55, 60, 100, 200, 255} {
+		for _, tail := range []int{0, 1, 5, 6, 7, 8, 20} {
+			for _, mt := range []byte{3, 1} {
+				o := []byte{53, 1, mt, 50, 4, 192, 168, 0, 77}
+				o = append(append(o, 61, byte(l)), rng.Bytes(l)...)
+				o = append(o, make([]byte, tail)...)
+				add("clientid", 68, 67, zero, dhcpMsg(rng, 1, o))
+			}
+		}
 	}
 	m := dhcpMsg(rng, 1, opts(1))
 	for cut := 0; cut <= len(m); cut += 1 + 7*(2-min(scale, 2)) {
@@ -554,5 +656,115 @@ func genDNSProc(cl *caseList, rng *lib.Rand, scale int) {
 		c := append([]byte{}, b...)
 		c[rng.Intn(len(c))] = rng.Byte()
 		add("mutate", c)
+	}
+}
+
+// ---------------------------------------------------------------- LLMNR (dispatched like mDNS)
+func genLLMNR(cl *caseList, rng *lib.Rand, scale int) {
+	add := func(class string, msg []byte) {
+		v := viewOf(msg)
+		cl.add("llmnr."+class, "llmnr", append([]string{hx(msg)}, v.tokens(false)...)...)
+	}
+	for k := 0; k < 60*scale; k++ {
+		add("response", randResponse(rng, rrTypes, 2).bytes())
+		m := &dnsMsg{id: rng.Intn(65536), flags: 0, qd: -1, an: -1, ns: -1, ar: -1}
+		m.questions = [][]byte{question(dnsName("WIN-PC"), rng.Pick(1, 28, 255))}
+		add("query", m.bytes())
+	}
+	b := randResponse(rng, rrTypes, 2).bytes()
+	for cut := 0; cut < len(b); cut++ {
+		add("trunc", b[:cut])
+	}
+	for k := 0; k < 60*scale; k++ {
+		c := append([]byte{}, b...)
+		c[rng.Intn(len(c))] = rng.Byte()
+		add("mutate", c)
+	}
+}
+
+// ---------------------------------------------------------------- UPNP description / location
+func genUPNP(cl *caseList, rng *lib.Rand, scale int) {
+	xmlOK := func(b []byte) bool {
+		var v dns_naming.UPNPService
+		return xml.Unmarshal(b, &v) == nil
+	}
+	add := func(class string, body []byte) { cl.add("upnp."+class, "upnp", hx(body), tf(xmlOK(body))) }
+	good := []byte(`<?xml version="1.0"?><root xmlns="urn:schemas-upnp-org:device-1-0"><specVersion><major>1</major><minor>0</minor></specVersion><device><friendlyName>192.168.0.103 - Sonos Play:1</friendlyName><manufacturer>Sonos, Inc.</manufacturer><modelNumber>S1</modelNumber><modelName>Sonos Play:1</modelName></device></root>`)
+	add("valid", good)
+	add("valid", []byte("<root><device/></root>"))
+	add("empty", nil)
+	for cut := 0; cut < len(good); cut += 3 {
+		add("trunc", good[:cut])
+	}
+	for k := 0; k < 80*scale; k++ {
+		c := append([]byte{}, good...)
+		c[rng.Intn(len(c))] = rng.Byte()
+		add("mutate", c)
+	}
+	for k := 0; k < 20*scale; k++ {
+		add("random", rng.Bytes(rng.Intn(80)))
+	}
+	for _, loc := range []string{"", "d.xml", "://x", "http://", "ftp://127.0.0.1/x", "http://127.0.0.1:1/d.xml", "http://[::1]:1/", "http://127.0.0.1:99999/", "%zz", "http://127.0.0.1:1/\x7f", "@server404", "HTTP://127.0.0.1:1", "http:127.0.0.1"} {
+		cl.add("upnploc", "upnploc", hx([]byte(loc)))
+	}
+}
+
+// ---------------------------------------------------------------- every other PayloadID class
+// frames of the classes Parse distinguishes that have no processor in handlers/ (dispatch falls
+// through, as in examples/), and LLDP through the dispatcher
+func genOther(cl *caseList, rng *lib.Rand, scale int) {
+	add := func(class string, f []byte) {
+		genSessOnce.Do(func() { genSess, _ = lib.NewSession() })
+		var pid int
+		var payload []byte
+		ok := func() (ok bool) {
+			defer func() { recover() }()
+			frame, err := genSess.Parse(exact(f))
+			if err != nil {
+				return false
+			}
+			pid, payload = int(frame.PayloadID), frame.Payload()
+			return true
+		}()
+		if !ok {
+			cl.dropped["other.rejected"]++
+			return
+		}
+		switch packet.PayloadID(pid) { // classes with a dedicated kind are generated there
+		case packet.PayloadARP, packet.PayloadICMP4, packet.PayloadICMP6, packet.PayloadDHCP4, packet.PayloadDNS,
+			packet.PayloadMDNS, packet.PayloadLLMNR, packet.PayloadNBNS, packet.PayloadSSDP, packet.Payload8023:
+			return
+		}
+		cl.add(fmt.Sprintf("other.%s.%s", packet.PayloadID(pid), class), "other", hx(f), fmt.Sprint(pid), hx(payload))
+	}
+	dst4 := netip.MustParseAddr("192.168.0.129")
+	ip4 := func(proto byte, pl []byte) []byte {
+		return lib.MkEther(hostMAC, peerMAC, 0x0800, lib.MkIP4(peerIP4, dst4, proto, 64, pl))
+	}
+	ports := [][2]uint16{{40000, 443}, {123, 123}, {546, 547}, {3702, 3702}, {40000, 32412}, {10001, 10001}, {40000, 9999}, {68, 4000}}
+	for k := 0; k < 8*scale; k++ {
+		for _, pp := range ports {
+			add("udp", ip4(17, lib.MkUDP(pp[0], pp[1], rng.Bytes(rng.Intn(40)))))
+		}
+		add("tcp", ip4(6, lib.MkTCP(40000, 443, rng.Bytes(rng.Intn(40)))))
+		add("igmp", ip4(2, append([]byte{0x16, 0, 0, 0}, 224, 0, 0, 251)))
+		add("ipother", ip4(byte(rng.Pick(47, 50, 89, 132)), rng.Bytes(8+rng.Intn(20))))
+		f6 := lib.MkEther(hostMAC, peerMAC, 0x86dd, lib.MkIP6(peerLLA, hostLLA, 17, 64, lib.MkUDP(546, 547, rng.Bytes(12))))
+		add("udp6", f6)
+		for _, et := range []uint16{0x8808, 0x8899, 0x88cc, 0x890d, 0x893a, 0x6970, 0x880a, 0x1234, 0x8100, 0x88a8} {
+			pl := rng.Bytes(4 + rng.Intn(40))
+			if et == 0x88cc { // LLDP: TLV chains incl. lengths 0/1 (DESIGN #7)
+				pl = lldpTLV(1, 7, append([]byte{4}, rng.Bytes(6)...))
+				pl = append(pl, lldpTLV(2, rng.Pick(4, 4, 1, 0), []byte{5, 'e', 't', 'h'})...)
+				pl = append(pl, lldpTLV(3, 2, []byte{0, 120})...)
+				pl = append(pl, 0, 0, 0, 0)
+			}
+			add("ether", lib.MkEther(bcast, peerMAC, et, pl))
+		}
+	}
+	l := lldpTLV(1, 7, append([]byte{4}, rng.Bytes(6)...))
+	l = append(append(l, lldpTLV(3, 2, []byte{0, 120})...), 0, 0, 0, 0)
+	for cut := 0; cut <= len(l); cut++ {
+		add("lldp.trunc", lib.MkEther(bcast, peerMAC, 0x88cc, l[:cut]))
 	}
 }
